@@ -738,6 +738,11 @@ pub fn cmd_replay(args: &[String]) -> i32 {
     match out {
         Outcome::Violation(v) => {
             println!("sim: replay of {} ({} steps): oracle {} at step {}: {}", path, r.history.steps.len(), violation_key(&v), v.step, v.detail);
+            let findings = known::load(&verif_dir());
+            if let Some(f) = known::matches(&findings, &r.property, &v, &r.history) {
+                println!("KNOWN-FINDING: property={} {} {}", r.property, f.id, f.what);
+                return 0;
+            }
             for (i, s) in r.history.steps.iter().enumerate() {
                 println!("sim:   step {}{}: S{} {}", i, if i == v.step { " <== fails here" } else { "" }, s.surf, serde_json::to_string(&s.op).unwrap_or_default());
             }
